@@ -310,6 +310,80 @@ def _r12e(chk, repo) -> None:
     chk.require({lab for lab, _, _ in pairs} >= set(side_of), "R12e", f, "not every kind of pending insertion gets the added whitespace", detail="respace: both sides handled")
 
 
+_R12F_KEEP = ("select", "children", "list", "tuple", "cast", "fromkeys", "filter_meta", "copy")
+
+
+def _r12f_parity(cfg, e, at, depth: int = 0, seen=None) -> Set[int]:
+    """Net number (mod 2) of order reversals between the tree and sequence expression ``e``, over all reaching values."""
+    seen = seen if seen is not None else set()
+    if e is None or depth > 8:
+        return {0}
+    if isinstance(e, ast.Name):
+        out: Set[int] = set()
+        for o in origins(cfg, e, at):
+            if o.kind == "expr" and isinstance(o.expr, ast.AST) and not o.path and id(o.expr) not in seen:
+                seen.add(id(o.expr))
+                out |= _r12f_parity(cfg, o.expr, o.stmt if o.stmt is not None else at, depth + 1, seen)
+        return out or {0}
+    if isinstance(e, ast.Call):
+        la = last_attr(e)
+        if la == "reversed":
+            inner = e.func.value if isinstance(e.func, ast.Attribute) else (e.args[0] if e.args else None)
+            return {1 - p for p in _r12f_parity(cfg, inner, at, depth + 1, seen)}
+        if la == "sorted":
+            return {0}  # a new order altogether: not a reversal of the source order (judged elsewhere)
+        if la in _R12F_KEEP:
+            inner = e.func.value if isinstance(e.func, ast.Attribute) and la in ("select", "children", "copy") else (e.args[-1] if e.args else None)
+            if la == "filter_meta" and e.args:
+                inner = e.args[0]
+            return _r12f_parity(cfg, inner, at, depth + 1, seen)
+        return {0}
+    if isinstance(e, ast.Subscript) and isinstance(e.slice, ast.Slice):
+        st = e.slice.step
+        neg = isinstance(st, ast.UnaryOp) and isinstance(st.op, ast.USub) and isinstance(st.operand, ast.Constant) and st.operand.value == 1
+        ps = _r12f_parity(cfg, e.value, at, depth + 1, seen)
+        return {1 - p for p in ps} if neg else ps
+    if isinstance(e, (ast.List, ast.Tuple)):
+        out = set()
+        for x in e.elts:
+            if isinstance(x, ast.Starred):
+                out |= _r12f_parity(cfg, x.value, at, depth + 1, seen)
+        return out or {0}
+    if isinstance(e, ast.BinOp) and isinstance(e.op, ast.Add):
+        return _r12f_parity(cfg, e.left, at, depth + 1, seen) | _r12f_parity(cfg, e.right, at, depth + 1, seen)
+    if isinstance(e, ast.IfExp):
+        return _r12f_parity(cfg, e.body, at, depth + 1, seen) | _r12f_parity(cfg, e.orelse, at, depth + 1, seen)
+    if isinstance(e, (ast.ListComp, ast.GeneratorExp)):
+        return _r12f_parity(cfg, e.generators[0].iter, at, depth + 1, seen)
+    return {0}
+
+
+def _r12f(chk, repo) -> None:
+    from .. import editlists as _edits
+    from ..index import qualname, short
+
+    n = n_rev = 0
+    for s in _edits.sites(repo):
+        if s.arg is None:
+            continue
+        n += 1
+        cfg = cfg_of(s.f)
+        st = cfg.stmt_of(s.call)
+        ps = _r12f_parity(cfg, s.arg, st) if st is not None else {0}
+        if any(isinstance(x, ast.Call) and last_attr(x) == "reversed" for x in ast.walk(s.f)):
+            n_rev += 1
+        q = qualname(s.f)
+        chk.require(
+            1 not in ps, "R12f", s.call,
+            f"{q} re-creates tree segments in reversed order: the edit `{short(s.arg, 60)}` derives from a backwards scan (.reversed() / reversed() / [::-1]) that is not turned round again, so e.g. "
+            "an inline comment and the newline that ended it swap places and the comment swallows the code that follows when the fixed text is lexed again",
+            detail=f"{q}: segments re-created in source order",
+        )
+    chk.count("R12f.edit_sites", n)
+    chk.count("R12f.sites_in_functions_that_scan_backwards", n_rev)
+    chk.floor("R12f.edit_sites", 60)
+
+
 def run(chk) -> None:
     repo = chk.repo
     chk.rule("R12a", "for every dialect and every pair of fixed-text leaf tokens that the grammar lets follow each other with a gap and the default layout configuration asks to touch, the dialect's lexer table reads the joined text as the same two tokens (exhaustive over the serialised grammars, lexer tables and the default configuration)")
@@ -318,6 +392,8 @@ def run(chk) -> None:
     chk.rule("R12d", "every candidate text that the dialect's NakedIdentifierSegment entry admits (template fullmatch, IGNORECASE, minus anti_template, casefold-stable: what RF06 unquotes) is read by the dialect's lexer table as one token of the matcher that reads a plain word (ASCII characters exhaustively, alone and in word context; all strings up to length 3 over a representative alphabet)")
     chk.rule("R12e", "a space that respace adds to an already pending insertion goes on the side of the gap: after the inserted segment when that segment ends the previous block, before it when it starts the next block")
     _r12e(chk, repo)
+    chk.rule("R12f", "segments taken from the tree and re-created by a create / replace fix keep their source order: on every value that reaches the edit list of a LintFix built in rules/ or utils/, backwards scans (.reversed(), reversed(), [::-1]) cancel out in pairs")
+    _r12f(chk, repo)
     in_selftest = getattr(chk, "in_selftest", False)
     rf06 = _rf06_facts(repo)
     cfg = LayoutConfig.of_repo(repo)
@@ -943,6 +1019,18 @@ def _r12c(chk, repo) -> None:
 ANSI = "src/sqlfluff/dialects/dialect_ansi.py"
 
 VARIANTS: List[Variant] = [
+    Variant(
+        "cv07-trailing-nodes-lifted-in-scan-order", "src/sqlfluff/rules/convention/CV07.py",
+        "                filtered_children.reversed()\n                .select(loop_while=to_lift_predicate)\n                .reversed()\n",
+        "                filtered_children.reversed()\n                .select(loop_while=to_lift_predicate)\n",
+        "R12f", "Rule_CV07._eval", "seeded C12-9: `-- c` and the newline after it swap, the comment swallows the terminator",
+    ),
+    Variant(
+        "quiet-cv07-trailing-nodes-turned-round-by-slice", "src/sqlfluff/rules/convention/CV07.py",
+        "            trailing = (\n                filtered_children.reversed()\n                .select(loop_while=to_lift_predicate)\n                .reversed()\n            )\n",
+        "            trailing_rev = filtered_children.reversed().select(loop_while=to_lift_predicate)\n            trailing = trailing_rev.reversed()\n",
+        QUIET, None, "second reversal through a local",
+    ),
     Variant(
         "borrowed-space-on-the-far-side", "src/sqlfluff/utils/reflow/respace.py",
         '        if existing_fix == "before":\n            fix.edit = [cast(BaseSegment, added_whitespace)] + fix.edit\n        elif existing_fix == "after":\n            fix.edit = fix.edit + [cast(BaseSegment, added_whitespace)]\n',
